@@ -122,6 +122,10 @@ def factory_obligations(chk, mod, fname, noop):
         path.assume(Q([Val], lambda x: unwrap_f(unwrap_f(x)) == unwrap_f(x), trigger=unwrap_f, name="unwrap-idempotent"))
         path.assume(Q([Val, Val, Val], lambda u, v, c: is_routine_for(build(u, v, c), u), trigger=build, name="dispatch-builds-a-routine-for-its-unwrapped-argument"))
         path.assume(z3.Implies(n > 0, node_type(n - 1) == t))      # the root is the last node (C09)
+        # the factories pre-bind typing.Any to the pass-through routine, which is what the dispatch builds for Any
+        # (second entry of the handler tables: isunresolvable -> NoOp*; C15/C17)
+        import typing as _t
+        path.assume(is_routine_for(z3.Const("noop_routine", Val), unwrap_f(to_val(_t.Any))))
         return [SV(t)], {}, {"t": t, "n": n}
     results = I.run_function(func, mk)
     for pi, (path, out, obls, writes, cur) in enumerate(results):
